@@ -260,6 +260,11 @@ impl Read for SimReader {
             return Ok(0);
         }
         let p = self.pos as usize;
+        if p > self.data.len() {
+            // the consumer seeked beyond the end of the data (legal for `Seek`) and reads there: end of file
+            self.log.u64(0);
+            return Ok(0);
+        }
         buf[..k].copy_from_slice(&self.data[p..p + k]);
         self.pos += k as u64;
         self.stats.bytes += k as u64;
